@@ -180,6 +180,10 @@ def main():
     native_lp_withdraw(ck, prog, ck.program('stableswap_3pool', 'white_whale_std'), progv)
     import c17_migrate
     c17_migrate.run(ck, prog, progv)
+    # the frontend helper path: a deposit the (paused) pool refuses makes the helper's reply fail, so the coins and cw20 tokens the helper
+    # already pulled go back with the transaction - nothing is stranded on the helper
+    import c11_helper
+    c11_helper.reply_failure(ck, ck.program('frontend_helper', 'white_whale_std'))
     ck.bounds.update(toggles='all 2^3 combinations at once (three symbolic bits)', paths='pair: native swap, cw20-hook swap, provide (first/next), cw20-hook withdraw; vault: deposit (first/next), cw20-hook withdraw, flash loan; native and cw20 assets')
     ck.outside += ['token-factory builds (osmosis / injective features): the default build is analysed; the direct native-LP withdraw dispatch is covered from a constructed pre-state, the token-factory mint / burn messages are not',
                    'indirect callers (router, frontend helper, vault router) reach these same entry points through emitted messages: their message shape is C06/C11/C15']
@@ -187,4 +191,4 @@ def main():
 
 
 if __name__ == '__main__':
-    sys.exit(main())
+    sys.exit(run_main(main))
